@@ -696,6 +696,12 @@ func c09Run(c *fw.Ctx) error {
 			}
 		}
 		try := func(mut string, b []byte) {
+			if bytes.Equal(b, valid) {
+				// random multi-byte changes can cancel each other (same position, same mask twice): that is the
+				// chunk the legitimate peer did produce, and accepting it is no violation
+				c.Class("mutation:cancelled-out-not-judged", 1)
+				return
+			}
 			cs := c09Case{chunkCase: base, Mutation: mut, Hex: hex.EncodeToString(b)}
 			c.Journal(i, cs)
 			var m *uasc.MessageChunk
